@@ -316,6 +316,8 @@ H("sendbuf_poll_transmit_retransmit_native", ["C01"], "replay-only", "connection
   ["SendBuffer::poll_transmit"], "native replay body of E2 query e2_sendbuf_poll_transmit")
 H("endpoint_stateless_reset_native", ["C03", "C07"], "replay-only", "endpoint::stateless_reset_native",
   [("inciting_len", "u16")], 4, [], ["Endpoint::stateless_reset"], "native replay body of E2 query e2_stateless_reset")
+H("endpoint_add_connection_cids_native", ["C09", "C08"], "replay-only", "endpoint::add_connection_cids_native",
+  [("pref", "bool")], 4, [], ["Endpoint::add_connection", "Endpoint::send_new_identifiers", "ConnectionIndex::remove"], "native replay body of E2 slice query e2_endpoint_add_connection_cids_slice")
 H("endpoint_retire_and_drained_native", ["C09", "C08"], "replay-only", "endpoint::retire_and_drained_native",
   [("allow_more", "bool")], 4, [], ["Endpoint::handle_event", "Endpoint::send_new_identifiers", "ConnectionIndex::retire", "ConnectionIndex::remove"], "native replay body of E2 query e2_endpoint_retire_and_drained_events")
 H("token_bloom_replay_native", ["C14"], "replay-only", "token::bloom_replay_native",
@@ -360,7 +362,7 @@ H("udp_gso_probe_native", ["C19"], "replay-only", "unix::gso_probe_native",
 H("udp_effective_segment_size", ["C19"], "quick", "effective_segment_size",
   [("len", "u16"), ("has_seg", "bool"), ("seg", "usize")], 4, ["plain send", "segmented"],
   ["Transmit::effective_segment_size"], "every payload length: u16, every segment size: usize", crate="quinn_udp")
-H("path_from_previous", ["C07", "C15"], "quick", "connection::paths::from_previous",
+H("path_from_previous", ["C07", "C15", "C12"], "quick", "connection::paths::from_previous",
   [("prev_validated", "bool"), ("prev_sent", "u64"), ("prev_recvd", "u64"), ("prev_in_flight", "u64"), ("prev_gen", "u64"), ("new_gen", "u64"), ("new_port", "u16"), ("bytes_to_send", "u64")], 6,
   ["reached"], ["PathData::from_previous", "PathData::anti_amplification_blocked", "Pacer::new"],
   "every previous-path state (validated or not, counters < 2^62), every new port / generation")
@@ -443,6 +445,10 @@ H("conn_path_validation_timeout_native", ["C15"], "replay-only", "connection::pa
   [("rounds", "u8")], 4, [], ["Connection::handle_event", "Connection::migrate", "Connection::handle_timeout"], "native replay body of E2 slice query e2_path_validation_timeout_slice")
 H("conn_zero_rtt_rejection_native", ["C17", "C12"], "replay-only", "connection::zero_rtt_rejection_native",
   [("accept", "bool")], 4, [], ["Connection::handle_event", "Connection::process_decrypted_packet", "StreamsState::zero_rtt_rejected", "Connection::remove_in_flight"], "native replay body of E2 slice query e2_zero_rtt_rejection_slice")
+H("conn_close_budget_native", ["C13"], "replay-only", "connection::close_budget_native",
+  [("reason_len", "u16"), ("acks", "bool"), ("code", "u64")], 4, [], ["Connection::close", "Connection::poll_transmit", "frame::Close::encode"], "native replay body of E2 slice query e2_poll_transmit_close_budget_slice; demonstration for finding 13")
+H("conn_datagram_unblock_native", ["C16"], "replay-only", "connection::datagram_unblock_native",
+  [("n", "u8")], 4, [], ["Connection::poll_transmit", "Connection::populate_packet", "DatagramState::write", "Connection::poll"], "native replay body of E2 slice query e2_populate_packet_datagram_loop_slice")
 H("conn_path_response_native", ["C15", "C07"], "replay-only", "connection::path_response_native",
   [("mode", "u8")], 4, [], ["Connection::handle_event", "Connection::process_payload"], "native replay body of E2 slice query e2_path_response_slice")
 H("conn_detect_lost_native", ["C12"], "replay-only", "connection::detect_lost_native",
@@ -461,6 +467,8 @@ H("conn_peer_params_cid_auth_native", ["C14", "C04"], "replay-only", "connection
   [("server", "bool"), ("which", "u8")], 4, [], ["Connection::handle_peer_params"], "native replay body of E2 query e2_peer_params_cid_auth")
 
 # ------------------------------------------------------------------ transport_parameters.rs (C10, C03.e)
+H("frame_close_encode_budget_native", ["C13", "C10"], "replay-only", "frame::close_encode_budget_native",
+  [("code", "u64"), ("reason_len", "u16"), ("max_len", "u16")], 4, [], ["ApplicationClose::encode", "frame::Iter::next"], "native replay body of E2 query e2_application_close_encode_budget")
 H("tp_preferred_address_read", ["C10", "C03"], "quick", "transport_parameters::preferred_address_read",
   [("buf", "[u8; 64]"), ("len", "usize")], 22,
   ["decoded", "decoded with a 20-byte CID", "Malformed", "IllegalValue"],
